@@ -25,7 +25,7 @@ VARIANTS = [
     ("pairs", None, {}), ("gtf", None, {"comments": True}), ("gff3", None, {"comments": True}), ("wig", None, {"comments": True}),
     ("vcf", None, {}), ("vcf", None, {"info_defs_alt": True}), ("vcf_noinfo", None, {}), ("vcf_noinfo", "VCFWithInfoAsStringBuffer", {}), ("vcf_gt", None, {}),
     ("vcf_gt", "VCFMatrixBuffer", {}), ("vcf_gt", "VCFBuffer2", {}), ("vcf_gt", "VCFBuffer2", {"rich_format": True}), ("vcf_gt", "VCFMatrixBuffer", {"rich_format": True}), ("vcf_phased", "PhasedVCFMatrixBuffer", {}), ("vcf_phased", "PhasedHaplotypeVCFMatrixBuffer", {}),
-    ("sam", None, {}), ("sam", None, {"tags": False}),
+    ("sam", None, {}), ("sam", None, {"tags": False}), ("csv4", None, {}), ("ssv4", None, {}),
 ]
 
 
